@@ -83,9 +83,8 @@ Definition tobs_eqb (a b : option (N * bool)) : bool :=
   end.
 
 Definition twf (c : tcase) : bool :=
-  (0 <? tc_size c) &&
   if tc_fault c =? 0 then match tc_cl c with None => true | Some h => h =? tc_size c end
-  else if tc_fault c =? 2 then match tc_cl c with None => false | Some h => tc_size c <? h end
+  else if tc_fault c =? 2 then (0 <? tc_size c) && match tc_cl c with None => false | Some h => tc_size c <? h end
   else tc_fault c =? 1.
 
 Definition check_tcase (c : tcase) : N :=
